@@ -37,7 +37,7 @@ class Gen:
     def cst(self):
         r = self.r
         k = r.random()
-        if k < 0.35: return r.choice(["a", "b", "c", "ab", "x", "toString", "constructor", "__proto__", ""])
+        if k < 0.35: return r.choice(["a", "b", "c", "ab", "x", "toString", "constructor", "__proto__", "", "1", "0", "true", "null"])
         if k < 0.6: return I(r.choice([0, 1, 2, 3, -1]))
         if k < 0.68: return r.choice([NAN, NEGZ, DEC("1.5")])
         if k < 0.85: return r.random() < 0.5
@@ -286,6 +286,16 @@ class Gen:
         t = v[0]
         if depth <= 0 or t not in ("arr", "obj", "map", "set") or r.random() < 0.3:
             k = r.random()
+            if t in ("num", "s", "b", "n") and k < 0.4:
+                # the loosely-equal neighbour of a scalar in another JS type (1 / "1" / true, 0 / "0" / "" / false, null / undefined / "null")
+                if t == "num" and v[1] == "int":
+                    return r.choice([S(str(v[2]))] + ([B(v[2] == 1)] if v[2] in (0, 1) else []) + ([S("")] if v[2] == 0 else []))
+                if t == "s" and v[1].lstrip("-").isdigit() and len(v[1]) < 6: return I(int(v[1]))
+                if t == "s" and v[1] == "": return r.choice([I(0), B(False)])
+                if t == "s" and v[1] in ("true", "false"): return B(v[1] == "true")
+                if t == "s" and v[1] == "null": return NUL
+                if t == "b": return r.choice([I(1 if v[1] else 0), S("true" if v[1] else "false")])
+                if t == "n": return r.choice([U, S("null")])
             if t == "obj" and k < 0.5:
                 kvs = list(v[1])
                 q = r.random()
